@@ -28,6 +28,19 @@ func TestC02(t *testing.T) {
 		}
 		rec.Witnessed(sigOrphan, w)
 	}
+	// scenario tier: the only member is asked to leave while the first join holds its lock
+	if p := soleMemberLeavesDuringFirstJoin(); p != "" {
+		if len(p) > 13 && p[:13] == "precondition:" {
+			rec.Inconclusive("scenario-precondition")
+			t.Logf("sole-member-leaves scenario: %s", p)
+		} else {
+			rec.Fail(t, "not-converged-after-leave-during-first-join", map[string]any{"schedule": "ring {2<<44}; 1<<44 joins, its advisory FinishJoin(stabilize) to 2<<44 is held on the wire (2<<44: predecessor = joiner, successor = itself, membership lock held by the join); Leave() of 2<<44; advisory released", "problem": p}, "%s", p)
+		}
+	} else {
+		rec.Case(true, "scenario:sole-member-leaves-during-first-join", func() any {
+			return map[string]any{"scenario": "Leave() of the only member while the first join holds its membership lock"}
+		}, "scenario:sole-member-leaves-during-first-join")
+	}
 	// schedule-stress tier: overlapping stabilization rounds of one real node while its view changes
 	{
 		rounds := ev.Pick(150000, 600000)
@@ -93,6 +106,11 @@ func TestC02(t *testing.T) {
 		}
 		if c.Problem != "" {
 			doc["problem"] = c.Problem
+			if orphaned(r) && !orphanedByLockedLeaves(r) {
+				// a survivor lists only departed nodes, but they did not all leave through a proper
+				// (locked) leave: not the listed finding
+				rec.Fail(t, "survivor-orphaned-by-improper-departure", doc, "after churn and %d maintenance rounds a survivor lists only departed nodes, at least one of which did not go through a locked leave: %s", rounds, c.Problem)
+			}
 			if orphaned(r) {
 				// known class: every node a survivor lists as successor left gracefully within one
 				// stabilization period, the survivor can never repair its pointers
